@@ -60,3 +60,10 @@ MUTANTS += [
        "    def rgb(self, rgb):\n        if not isinstance(rgb, RGBColor):\n            raise TypeError(\"assigned value must be type RGBColor\")\n        self._srgbClr.val = str(rgb)")],
      "R3.5c ColorFormat.rgb->_SRgbColor.rgb"),
 ]
+
+MUTANTS += [
+    ("blank-core-properties-parsed-once", "the blank core-properties element is parsed once and handed to every caller",
+     [("src/pptx/oxml/coreprops.py", "    @staticmethod\n    def new_coreProperties() -> CT_CoreProperties:\n        \"\"\"Return a new `cp:coreProperties` element\"\"\"\n        return cast(CT_CoreProperties, parse_xml(CT_CoreProperties._coreProperties_tmpl))",
+       "    _blank = None\n\n    @classmethod\n    def new_coreProperties(cls) -> CT_CoreProperties:\n        \"\"\"Return a new `cp:coreProperties` element\"\"\"\n        if cls._blank is None:\n            cls._blank = cast(CT_CoreProperties, parse_xml(cls._coreProperties_tmpl))\n        return cls._blank")],
+     "R3.8 CT_CoreProperties.new_coreProperties:return"),
+]
